@@ -1,5 +1,5 @@
 """HTLC: C03, C04 and the expiry-queue clauses of C13 (HTLC.tla / HTLCTrace.tla / harness/cmd/htlc)."""
-from props import ModuleCheck, T
+from props import ModuleCheck, T, bundled
 
 HTLC_CLAUSES_C03 = ["C03_StateOrder", "C03_ClaimSound", "C03_ClaimComplete", "C03_RejectionsInert",
                     "C03_RefundAtExpiry", "C03_ExactlyOnce", "C03_ScaleExact"]
@@ -32,6 +32,8 @@ HTLC_RND = T(
      dict(n=36, len=40, procs=3, cfg="users=3,limit1=6,limit2=6,tbl2=4,period=60,initbal=6,scales=thorough"),
      # dozens of contracts per expiry height (C13); the quick tier has scenarios/htlc_dozens.ndjson
      dict(n=6, len=40, procs=6, cfg="users=3,initbal=60,flood=40,limit1=12")])
+# multi-message transactions (runs of one signer's messages delivered as one real transaction)
+bundled(HTLC_RND)
 HTLC_GEN = T([dict(cfg="GEN_HTLC.cfg", num=8, depth=26, seeds=8)],
              [dict(cfg="GEN_HTLC.cfg", num=40, depth=30, seeds=14)])
 HTLC_SCN = [dict(file="scenarios/htlc_boundary.ndjson", cfg="users=2"),
@@ -63,7 +65,7 @@ HTLC_MC = T([dict(cfg="MC_HTLC.cfg", timeout=900, heap="4g"), dict(cfg="MC_HTLC_
              dict(cfg="MC_HTLC_H1fixed.cfg", timeout=900, heap="4g")])
 
 # histories recorded (VERIF_RECORD_DIR) for the cross-module checks C11 / C12
-RECORD = [dict(binary="htlc", n=T(3, 12), len=40, cfg="users=3,limit1=6,limit2=6,tbl2=4,period=60,initbal=6")]
+RECORD = [dict(binary="htlc", n=T(3, 12), len=40, cfg="users=3,limit1=6,limit2=6,tbl2=4,period=60,initbal=6" + ",bundle=30")]
 
 HTLC_ASSUME = ["TLC 1.8, SANY, CommunityModules Json", "Go toolchain, cosmos-sdk x/bank, x/auth",
                "harness projection functions",
